@@ -111,6 +111,21 @@ def entry_points(chk, ex, clsname, which, found=None):
         chk.errors.append("constructor of %s has no successful outcome" % clsname)
         return
     sref, st0 = objs[0]
+    # the methods are examined on the first successful outcome of the constructor; any further
+    # outcome (a library call in the constructor forked) must be the same object up to array identity
+    for pi, (r2, s2) in enumerate(objs[1:], 1):
+        f0, f2 = st0.objs[sref.oid]["fields"], s2.objs[r2.oid]["fields"]
+        diff = [k for k in set(f0) | set(f2) if k not in f0 or k not in f2]
+        for k in set(f0) & set(f2):
+            x, y = f0[k], f2[k]
+            if isinstance(x, Arr) or isinstance(y, Arr):
+                if not (isinstance(x, Arr) and isinstance(y, Arr) and x.dtype == y.dtype and len(x.shape) == len(y.shape) and (x.buf is None) == (y.buf is None)):
+                    diff.append(k)
+            elif isinstance(x, (Sym, Const)) and isinstance(y, (Sym, Const)):
+                if not same_value(chk, s2.pc, x, y):
+                    diff.append(k)
+        if diff:
+            chk.undecided.append(("%s constructor" % clsname, "successful constructor path %d differs from path 0 in %s; the methods were examined on path 0 only" % (pi, sorted(diff)[:6])))
     value = Sym(z3.Int("value"), "int")
     ngram = Sym(z3.Int("ngram"), "int")
     # documented input domain: multiplicities 0 <= v < 2^64, n >= 1, hh[key] only for len(key) <= max_key_len
@@ -187,19 +202,28 @@ def entry_points(chk, ex, clsname, which, found=None):
     def seq_equal(name, batch_outs, loop_steps):
         rets = [(o, e) for o, e in batch_outs if o.kind == "return"]
         row(chk, "%s:no-exception" % name, len(rets) == len(batch_outs) and rets, None, found)
-        # reference: run the single calls one after the other on a copy
-        s = st0.fork()
-        s.pc += base
-        ref_seq = []
-        for method, args in loop_steps:
-            outs = _glue.call_method(ex, s, sref, method, args)
-            outs = [(o, e) for o, e in outs if o.kind == "return"]
-            if len(outs) != 1:
+        # reference: the single calls one after the other on a copy, under the path condition of the
+        # batch outcome it is compared with (a branch both sides take on the same test - e.g. on the
+        # key's length - is then taken the same way)
+        def reference(pc):
+            s = st0.fork()
+            s.pc += base
+            s.pc += [f for f in pc if not any(f.eq(g) for g in s.pc)]
+            ref_seq = []
+            for method, args in loop_steps:
+                outs = _glue.call_method(ex, s, sref, method, args)
+                outs = [(o, e) for o, e in outs if o.kind == "return" and ex.feasible(o.state)]
+                if len(outs) != 1:
+                    return None, None
+                ref_seq += kernel_calls(outs[0][1])
+                s = outs[0][0].state
+            return ref_seq, s
+
+        for o, e in rets:
+            ref_seq, s = reference(o.state.pc)
+            if ref_seq is None:
                 chk.undecided.append((name, "reference loop forks"))
                 return
-            ref_seq += kernel_calls(outs[0][1])
-            s = outs[0][0].state
-        for o, e in rets:
             ks = kernel_calls(e)
             ok = len(ks) == len(ref_seq)
             why = []
